@@ -152,7 +152,7 @@ Apis(ca) ==
   CASE ca = "tag" -> {"canon", "value", "validate", "customtag", "sliceroot", "maproot", "object"}
     [] ca = "rm"  -> {"canon", "value", "forfn", "forrule", "typed", "nested", "sliceroot",
                       "overtag"}   \* the field also carries a tag rule (one that never fires): the rule map replaces it entirely
-    [] ca = "var" -> {"canon", "joined", "object"}
+    [] ca = "var" -> {"canon", "joined", "object", "ptr", "ptrptr"}    \* the value behind one / two levels of pointers
     [] ca \in {"map", "mapiface"} -> {"canon", "sliceroot", "mapfn", "object",
                                       "extrakey", "extrakeys",   \* the map also holds one / two entries that have no rule at all
                                       "namedkey",                \* the map's key type is a defined string type
